@@ -44,6 +44,14 @@ theorem interpolate_no_clamp {a b t : α} (h0 : 0 ≤ t) (h1 : t ≤ 1) :
     interpolate a b t = t * b + (1 - t) * a :=
   interpolate_of_mem h0 h1
 
+/-- `mean_clamp_inactive`: on a well-formed state every centroid mean lies in `[min, max]`, so the
+clamp `clamped_mean` applied by `quantile` and `cdf` when they read a mean is the identity (in exact
+arithmetic); the piecewise-linear characterisations below are therefore in terms of the raw means. -/
+theorem mean_clamp_inactive {s : St α} (h : WF s) {mn mx : α} (hmin : s.min = some mn)
+    (hmax : s.max = some mx) {c : Centroid α} (hc : c ∈ s.centroids) :
+    clampedMean mn mx c = c.mean :=
+  clampedMean_eq_of_wf h hmin hmax hc
+
 /-- On a non-empty well-formed state and `0 ≤ q ≤ 1`, `quantile` never panics (the `i > 0`
 assertion cannot fire, `min`/`max` are set) and returns the *unclamped* piecewise-linear
 interpolation through the knots `(0, min), (w₀/2, mean₀), (w₀ + w₁/2, mean₁), …, (S, max)` at
@@ -236,17 +244,17 @@ theorem ex_strict : StrictKnots ex := by
     simp [ex, Centroid.mean]; norm_num
 
 example : quantileInner ex (1 / 2) = .val (19 / 5) := by
-  norm_num [quantileInner, quantileLoop, interpolate, totalCount, half, Centroid.mean, ex]
+  norm_num [quantileInner, quantileLoop, interpolate, clampedMean, totalCount, half, Centroid.mean, ex]
 example : quantileInner ex (1 / 14) = .val (1 / 2) := by
-  norm_num [quantileInner, quantileLoop, interpolate, totalCount, half, Centroid.mean, ex]
+  norm_num [quantileInner, quantileLoop, interpolate, clampedMean, totalCount, half, Centroid.mean, ex]
 example : quantileInner ex (13 / 14) = .val (23 / 4) := by
-  norm_num [quantileInner, quantileLoop, interpolate, totalCount, half, Centroid.mean, ex,
+  norm_num [quantileInner, quantileLoop, interpolate, clampedMean, totalCount, half, Centroid.mean, ex,
     List.getLast?]
 example : cdfInner ex (19 / 5) = some (1 / 2) := by
-  norm_num [cdfInner, cdfLoop, interpolate, totalCount, half, Centroid.mean, ex]
+  norm_num [cdfInner, cdfLoop, interpolate, clampedMean, totalCount, half, Centroid.mean, ex]
 example : cdfInner ex (19 / 5) = some (1 / 2) :=
   cdf_quantile ex_wf ex_strict (by norm_num) (by norm_num)
-    (by norm_num [quantileInner, quantileLoop, interpolate, totalCount, half, Centroid.mean, ex])
+    (by norm_num [quantileInner, quantileLoop, interpolate, clampedMean, totalCount, half, Centroid.mean, ex])
 example : ∃ mn, ex.min = some mn ∧ quantileInner ex 0 = .val mn := quantile_zero ex_wf (by simp [ex])
 example : ∃ mx, ex.max = some mx ∧ quantileInner ex 1 = .val mx := quantile_one ex_wf (by simp [ex])
 
@@ -261,6 +269,6 @@ theorem ex_run : run (k0 (4 : ℚ)) (new 10) [.insert 1 1, .insert 4 1, .insert 
 example : WF (merge (k0 (4 : ℚ)) ⟨[⟨3, 2⟩, ⟨7, 2⟩], 4, some 1, some 4, [], 10⟩) := reachable_wf _ ex_run
 
 example : quantileInner (⟨[⟨3, 2⟩, ⟨7, 2⟩], 4, some 1, some 4, [], 10⟩ : St ℚ) (1 / 2) = .val (5 / 2) := by
-  norm_num [quantileInner, quantileLoop, interpolate, totalCount, half, Centroid.mean]
+  norm_num [quantileInner, quantileLoop, interpolate, clampedMean, totalCount, half, Centroid.mean]
 
 end Pds.Props.C15
